@@ -1,7 +1,7 @@
 (* Cost semantics (C19): the traversal of Cell.order instrumented with a counter of visits
    (one per stack pop in the Python code = one per call of the recursive formulation). *)
 From Coq Require Import NArith ZArith List Bool.
-From PTQ Require Import Base.Result Base.Bytes Base.Bits Model.Cell Model.Boc.
+From PTQ Require Import Base.Result Base.Bytes Base.Bits Model.Cell Model.Boc Model.Builder Model.Hashmap.
 Import ListNotations.
 
 Fixpoint ord_visit_c (c : kcell) (st : list kcell * nat) : list kcell * nat :=
@@ -15,3 +15,32 @@ Fixpoint ord_visit_c (c : kcell) (st : list kcell * nat) : list kcell * nat :=
 
 Definition order_visits (c : kcell) : nat := snd (ord_visit_c c ([], O)).
 Definition nrefs_sum (l : list kcell) : nat := fold_right (fun x a => length (k_refs x) + a) O l.
+
+(* Dictionary parser (Model/Hashmap.v parse_edge = parse.py `parse`) instrumented with a counter of edge visits
+   (one per call of `parse` that gets past its label) and a counter of visits that end without an entry
+   (non-ordinary cell, or the empty key).  Returns (leaves, (visits, empty terminals)).  Proofs: Proofs/DictCost.v *)
+Fixpoint parse_edge_c (fuel : nat) (ty : Z) (s : slice) (m : Z) (prefix : list bool)
+  : result (leaves * (nat * nat)) :=
+  match fuel with
+  | O => Err ERecursion
+  | S f =>
+    bind (deserialize_hml s m) (fun '(l, suffix, s1) =>
+    if (m <? Z.of_nat l)%Z then Err EValue else
+    let prefix' := prefix ++ suffix in
+    let m' := (m - Z.of_nat l)%Z in
+    if negb (ty =? ty_ordinary)%Z then Ok ([], (1, 1))%nat
+    else if (m' =? 0)%Z then
+      match prefix' with [] => Ok ([], (1, 1))%nat | _ => Ok ([(prefix', s1)], (1, 0))%nat end
+    else
+      bind (s_load_ref s1) (fun '(c0, s2) =>
+      let 'Cell ty0 bits0 refs0 := c0 in
+      bind (parse_edge_c f ty0 (mkS bits0 refs0) (m' - 1) (prefix' ++ [false])) (fun '(ls, (vl, zl)) =>
+      bind (s_load_ref s2) (fun '(c1, _) =>
+      let 'Cell ty1 bits1 refs1 := c1 in
+      bind (parse_edge_c f ty1 (mkS bits1 refs1) (m' - 1) (prefix' ++ [true])) (fun '(rs, (vr, zr)) =>
+      Ok (ls ++ rs, (S (vl + vr), zl + zr))%nat)))))
+  end.
+
+Definition dict_visits (r : leaves * (nat * nat)) : nat := fst (snd r).
+Definition dict_empties (r : leaves * (nat * nat)) : nat := snd (snd r).
+
